@@ -832,14 +832,23 @@ def run(ctx):
                                                                                 "create_pump_std_type", "create_empty_network", "create_fluid_from_lib")]
     if missing or unknown:
         ctx.broken("translator", "create functions", "missing in package: %s; not translated: %s" % (missing, unknown))
-    cases, meta = run_plans(ctx, sigs)
-    correspond(ctx, cases, meta)
-    monitor_eg_types(ctx)
-    monitor_bulk_vs_fold(ctx, sigs, twins)
-    monitor_std_vs_parameters(ctx)
-    monitor_value_faults(ctx, sigs)
-    monitor_generated_lists(ctx, raw)
-    monitor_defaults_run(ctx)
+    import time
+    tm = {}
+
+    def timed(name, f, *a):
+        t0 = time.time()
+        r = f(*a)
+        tm[name] = round(time.time() - t0, 1)
+        return r
+    cases, meta = timed("plans", run_plans, ctx, sigs)
+    timed("coq_correspondence", correspond, ctx, cases, meta)
+    timed("eg_types", monitor_eg_types, ctx)
+    timed("bulk_vs_fold", monitor_bulk_vs_fold, ctx, sigs, twins)
+    timed("std_vs_parameters", monitor_std_vs_parameters, ctx)
+    timed("value_faults", monitor_value_faults, ctx, sigs)
+    timed("generated_lists", monitor_generated_lists, ctx, raw)
+    timed("defaults_run", monitor_defaults_run, ctx)
+    ctx.extra["phase_seconds"] = tm
     # twin default differences reported by the translator -> concrete rows (already shown by the differentials)
     for b, t in twins + [("create_pipe", "create_pipe_from_parameters")]:
         sb, st = [s for s in sigs if s.fn == b][0], [s for s in sigs if s.fn == t][0]
